@@ -206,9 +206,14 @@ func (g *ExecutionGraph) setupRetry() error {
 		var next []int
 		for _, u := range frontier {
 			// A node recorded as running belongs to a run whose process died
-			// before the node finished: it has to be executed again.
+			// before the node finished: it has to be executed again. A node
+			// that was never started is executed anyway; it is marked here
+			// so that the steps downstream of it are executed again as well
+			// (one of them may have completed through a skipped sibling
+			// path before this node was reached).
 			if retry[u] || dict[u] == NodeStatusError ||
-				dict[u] == NodeStatusCancel || dict[u] == NodeStatusRunning {
+				dict[u] == NodeStatusCancel || dict[u] == NodeStatusRunning ||
+				dict[u] == NodeStatusNone {
 				g.logger.Info("clear node state", "step", g.dict[u].data.Step.Name)
 				g.dict[u].clearState()
 				retry[u] = true
